@@ -260,6 +260,21 @@ fn exec(ctx: &mut Ctx, arena: &Arena, st: &Arena, spec: &Spec) {
                     let _ = format!("{:?}", a);
                     let ra: Vec<_> = a.map(|s| grab(&s)).collect();
                     let rb: Vec<_> = b.map(|s| grab(&s)).collect();
+                    // adapters asked in that state (on clones), and on the state they leave behind
+                    let mut c = tag.sections();
+                    for _ in 0..k {
+                        c.next();
+                    }
+                    let rest = wantv.len() - k.min(wantv.len());
+                    let cnt = c.clone().count();
+                    let last = c.clone().last().map(|s| grab(&s));
+                    let folded: Vec<_> = c.clone().fold(vec![], |mut v, s| { v.push(grab(&s)); v });
+                    let (lo, hi) = c.size_hint();
+                    if cnt != rest || last != (if rest > 0 { wantv.last().copied() } else { None }) || folded != wantv[k.min(wantv.len())..] || hi.is_some_and(|h| h < rest) || c.len() < rest {
+                        // (the lower bound counts unused entries too and is not constrained by the property)
+                        let _ = lo;
+                        problems.push(format!("after {} items: count() = {}, last() = {:x?}, fold sees {} items, size_hint ({}, {:?}), len {}; reference has {} items left", k, cnt, last, folded.len(), lo, hi, c.len(), rest));
+                    }
                     if ra != wantv[k.min(wantv.len())..] || rb != ra {
                         problems.push(format!("after {} items: original continues with {} items, clone with {}, reference {}", k, ra.len(), rb.len(), wantv.len() - k.min(wantv.len())));
                     }
@@ -282,6 +297,9 @@ fn exec(ctx: &mut Ctx, arena: &Arena, st: &Arena, spec: &Spec) {
                 while e.next().is_some() {}
                 if e.next().is_some() || e.next().is_some() {
                     problems.push("next() after None yields an item".to_string());
+                }
+                if e.clone().last().is_some() || e.clone().count() != 0 || e.clone().nth(0).is_some() {
+                    problems.push("a drained iterator yields something through last() / count() / nth(0)".to_string());
                 }
                 problems
             });
